@@ -24,11 +24,24 @@ func scenarios(r *vr.Run) []*clustermc.Scenario {
 		// stable leader: overlapping writes and reads, a read at a follower
 		{Name: "q-stable", Regions: 1, Leaders: []int{1}, Budget: 0, MaxDepth: 80,
 			Ops: []clustermc.OpSpec{w("a", "V1", 1), rd("a", 1, 2), w("a", "V2", 1)}},
-		// the old leader is cut off, store 2 campaigns and acknowledges a write, the old leader is asked to read
-		{Name: "q-deposed-d13", Regions: 1, Leaders: []int{1}, Budget: 2, Faults: dep, MaxDepth: 13, DepthBound: true,
-			Ops: []clustermc.OpSpec{w("a", "V1", 2), rd("a", 1)}},
 	}
+	// per-store clocks: the follower on store 3 may see a whole election timeout pass (a
+	// "leader lease" it keeps for the old leader runs out) while the isolated old leader's
+	// clock does not move; then store 2 campaigns, acknowledges a write, and the old leader is read
+	// (the old leader is cut off for free: its links are simply never chosen for delivery)
+	camp2 := clustermc.Faults{Campaign: true, CampaignAt: []int{2}}
+	quick = append(quick, &clustermc.Scenario{Name: "q-deposed-clockskew-d14", Regions: 1, Leaders: []int{1}, Budget: 1, Faults: camp2, LeaseTickAt: []int{3}, MaxDepth: 14, DepthBound: true,
+		Ops: []clustermc.OpSpec{w("a", "V1", 2), rd("a", 1)}})
 	thorough := []*clustermc.Scenario{
+		// the old leader is cut off by a partition, store 2 campaigns and acknowledges a write, the old leader is asked to read
+		{Name: "t-deposed-d13", Regions: 1, Leaders: []int{1}, Budget: 2, Faults: dep, MaxDepth: 13, DepthBound: true,
+			Ops: []clustermc.OpSpec{w("a", "V1", 2), rd("a", 1)}},
+		{Name: "t-deposed-clockskew-partition-d14", Regions: 1, Leaders: []int{1}, Budget: 2, Faults: dep, LeaseTickAt: []int{3}, MaxDepth: 14, DepthBound: true,
+			Ops: []clustermc.OpSpec{w("a", "V1", 2), rd("a", 1)}},
+		{Name: "t-deposed-clockskew", Regions: 1, Leaders: []int{1}, Budget: 2, Faults: dep, LeaseTickAt: []int{2, 3}, MaxDepth: 120,
+			Ops: []clustermc.OpSpec{w("a", "V1", 2), rd("a", 1)}},
+		{Name: "t-deposed-clockskew-3ops-d17", Regions: 1, Leaders: []int{1}, Budget: 2, Faults: dep, LeaseTickAt: []int{3}, MaxDepth: 17, DepthBound: true,
+			Ops: []clustermc.OpSpec{w("a", "V0", 1), w("a", "V1", 2), rd("a", 1, 2)}},
 		{Name: "t-deposed", Regions: 1, Leaders: []int{1}, Budget: 2, Faults: dep, MaxDepth: 120,
 			Ops: []clustermc.OpSpec{w("a", "V1", 2), rd("a", 1)}},
 		{Name: "t-stable-4ops", Regions: 1, Leaders: []int{1}, Budget: 0, MaxDepth: 120,
